@@ -96,6 +96,10 @@ def run(ctx):
     _blocking_arity(ctx)
 
 
+def _is_int(ty):
+    return ty.replace("&", "").strip() in ("usize", "u64", "u32", "u16", "u8", "i64", "i32", "isize")
+
+
 def _recursion(ctx):
     F = ctx.F
     cg = CallGraph(F, bins=False)
@@ -137,10 +141,19 @@ def _recursion(ctx):
             for bb, i, s in binop_sites(b, ("Lt", "Le", "Gt", "Ge", "Eq")):
                 for side in ("a", "b"):
                     sl = du.slice_operand(s["rv"][side], deep=False)
+                    other = s["rv"]["b" if side == "a" else "a"]
                     for l, _ in sl.params:
-                        nm = (b.local_name(l) or "").lower()
-                        if "depth" in nm or "level" in nm or "budget" in nm or "nest" in nm:
-                            bounded = True
+                        # a depth counter: an integer parameter compared with a constant bound ...
+                        if not _is_int(b.locals[l]["ty"]) or not ("c" in other):
+                            continue
+                        # ... that the cycle's calls pass on increased
+                        for cb_, ct_ in b.calls():
+                            tgt = callee_of(ct_) or ""
+                            if tgt in comp:
+                                for a_ in ct_["args"]:
+                                    asl = du.slice_operand(a_)
+                                    if asl.has_param(l) and (asl.binops & {"Add", "AddWithOverflow"}):
+                                        bounded = True
         key = "recursion:" + "<->".join(x.rsplit("::", 1)[-1] for x in comp)
         ctx.check(bounded, "C16.D2", key, site(cg.bodies[comp[0]]), ok="the cycle carries a depth parameter that is compared with a bound",
                   bad="%s call each other with no depth bound: nesting depth grows with the input (`*1\\r\\n` repeated), the stack overflows and the process aborts" % " and ".join(comp))
